@@ -165,7 +165,12 @@ func (r *RefReplica) ApplyUpdate(ud pb.Update) {
 		s := ud.Snapshot.Index
 		switch {
 		case s >= r.Last:
-			r.Opt = nil
+			// optional entries above the new snapshot stay optional
+			if k := s - r.Last; k < uint64(len(r.Opt)) {
+				r.Opt = append([]pb.Entry(nil), r.Opt[k:]...)
+			} else {
+				r.Opt = nil
+			}
 			r.dropTo(s)
 		case s > r.Floor:
 			opt := append([]pb.Entry(nil), r.Ents[s-r.Floor:]...)
